@@ -200,6 +200,38 @@ def streams(seed, tier):
     out.append(Stream("addresses", "run", "run.check", cases,
                       "REMOVE/GET/SET/BVAL/IVAL/FVAL on CODE stacks of depth 0..4 at every position in {MIN,-2..depth+2,MAX}; SET with id vectors that take CODE and EXEC items; missing operands"))
 
+    # 3b. LIST.SET with a record that PRINTS like the one it replaces (floats beyond the 3rd decimal, -0.0 / 0.0, a name that
+    #     spells a literal) and LIST.GET / LIST.ADD under small growth caps and with records longer than the default cap
+    cases = []
+    near = [(fbits(1.0), fbits(1.0004)), (fbits(0.0), fbits(1e-6)), (0, 0x80000000), (fbits(0.5), 0x3f000001), (fbits(2.5), fbits(2.50004)), (0x7fc00000, 0x7fc00000)]
+    for old, new in near:
+        for prof in (0, 1):
+            for pos in (0, 1):
+                for (o, n) in ((old, new), (new, old)):
+                    code = [L(F(fbits(9.0))), L(F(fbits(9.0)))]
+                    code[pos] = L(F(o), Z(3))
+                    cases.append(one_step(prof, "LIST.SET", dict(code=code, float=[n, fbits(7.0)], int=[pos, 3, 4], ivec=[[5, 9]], exec=[Z(2)])))
+                    code2 = list(code); code2[pos] = L(FV([o, o]))
+                    cases.append(one_step(prof, "LIST.SET", dict(code=code2, fvec=[[n, n]], int=[pos], ivec=[[6]], exec=[Z(2)])))
+    for k in range(600 if big else 150):          # a drifting cell: repeated updates by a float that moves by 1e-4 per step
+        x = rng.uniform(-3, 3)
+        prog = []
+        for j in range(rng.randrange(2, 7)):
+            prog += [F(fbits(x + 1e-4 * j)), IV([5]), Z(0), I("LIST.SET")]
+        prog += [Z(0), Z(0), I("LIST.FVAL")]
+        cases.append(case_run(k % 2, state(code=[L(F(fbits(x)))], exec=prog), 0, len(prog)))
+    for cap in (0, 1, 2, 3, 8, 500):
+        for n in ((2, 3, 5, 9, 12) if cap != 500 else (499, 500, 501, 510, 1030)):
+            c = list(DEFAULT_CFG); c[6] = cap
+            rec = L(*[rng.choice([Z(i), B(i % 2 == 0), F(fbits(float(i)))]) for i in range(n)])
+            for prof in (0, 1):
+                cases.append(case_run(prof, state(code=[rec], int=[0], exec=[I("LIST.GET")], cfg=c), 0, n + 2))
+                cases.append(case_run(prof, state(code=[rec], int=[0], exec=[I("LIST.GET")], cfg=c), 1, 0))
+                cases.append(case_run(prof, state(int=[7] * n, bool=[True] * 3, ivec=[[9] * (n - 1) + [1]], exec=[I("LIST.ADD"), Z(0), I("LIST.GET")], cfg=c), 0, n + 4))
+    out.append(Stream("lookalike-set-and-caps", "run", "run.check", cases,
+                      "LIST.SET replacing a record by one that prints the same (floats equal to 3 decimals, +-0.0, NaN), a cell updated repeatedly by a float drifting 1e-4 per step then read by LIST.FVAL; "
+                      "LIST.GET / LIST.ADD with growth_cap 0..8 and with records of 499..1030 items under the default cap (single steps and run())"))
+
     # 4. n-th value: every n around the number of values of the type, nested records
     cases = []
     for k in range(10000 if big else 2000):
